@@ -209,6 +209,7 @@ func init() {
 	preExec = func(c *Case) func() {
 		sc := &selChooser{seed: c.Seed, cnt: map[string]uint64{}}
 		vsched.SetSelectHook(sc.pick)
+		vsched.ResetStable()
 		return func() { vsched.SetSelectHook(nil) }
 	}
 }
